@@ -1,6 +1,6 @@
 // C13 (a): constructor / validating-setter matrix.  For every parameter position the
 // expectation is computed from the DOCUMENTED legal domain of the class:
-//   +1 must throw GeographicErr (and nothing else), 0 must not throw, -1 either (only the
+//   +1 (or 11 = same with a key suffix) must throw GeographicErr (and nothing else), 0 must not throw, -1 either (only the
 //   exception type is judged: GeographicErr / bad_alloc).
 #pragma once
 #include "fuzz/C13_numreg.hpp"
@@ -95,7 +95,7 @@ inline std::vector<Ctor>& ctors() {
       [](P p) { return EX(okA(p[0]) && okF(p[1]) && okLat(p[2]) && okA(p[3]), xA(p[0]) || xF(p[1]) || xA(p[3])); });
   add("AlbersEqualArea(a,f,stdlat1,stdlat2,k1)", {a0, f0, 30.0, 50.0, 1.0}, "afllk", [](P p) { AlbersEqualArea t(p[0], p[1], p[2], p[3], p[4]); (void)t; },
       [](P p) { bool legal = okA(p[0]) && okF(p[1]) && okLat(p[2]) && okLat(p[3]) && okA(p[4]);
-        if (legal && std::fabs(p[2]) == 90 && std::fabs(p[3]) == 90 && p[2] != p[3]) return 1;
+        if (legal && std::fabs(p[2]) == 90 && std::fabs(p[3]) == 90 && p[2] != p[3]) return 11;   // opposite poles: own key suffix
         return EX(legal, xA(p[0]) || xF(p[1]) || xA(p[4])); });
   add("AlbersEqualArea(a,f,sin1,cos1,sin2,cos2,k1)", {a0, f0, 0.5, 0.8660254037844387, 0.766044443118978, 0.6427876096865394, 1.0}, "afssssk",
       [](P p) { AlbersEqualArea t(p[0], p[1], p[2], p[3], p[4], p[5], p[6]); (void)t; },
@@ -177,10 +177,10 @@ inline void ctor_run(vh::Ctx& c, const Ctor& k, const double* p, bool judge, con
   std::string hx; { char b[40]; for (size_t i = 0; i < k.typ.size(); ++i) { std::snprintf(b, sizeof b, "%a ", p[i]); hx += b; } }
   vh::J d; d.raw("params", args).str("hexparams", hx).str("what", what).i("expected", want).i("got", got);
   if (got == 3) c.viol("exception:" + type + "@" + k.name, cls, d);
-  else if (judge && want == 1 && got != 1) c.viol("ctor:C13/illegal-parameter-accepted/" + k.name, cls, d);
+  else if (judge && want % 10 == 1 && got != 1) c.viol("ctor:C13/illegal-parameter-accepted/" + k.name + (want == 11 ? "/opposite-poles" : ""), cls, d);
   else if (judge && want == 0 && got != 0) c.viol("ctor:C13/legal-parameter-rejected/" + k.name, cls, d);
   uint64_t h = vh::hstr(k.name.c_str()); for (size_t i = 0; i < k.typ.size(); ++i) h = vh::hmix(h, p[i]);
-  c.count(cls + (want == 1 ? "/illegal" : want == 0 ? "/legal" : "/unspecified") + (got == 1 ? "->GeographicErr" : got == 0 ? "->ok" : got == 2 ? "->bad_alloc" : "->ILLEGAL"), h);
+  c.count(cls + (want % 10 == 1 ? "/illegal" : want == 0 ? "/legal" : "/unspecified") + (got == 1 ? "->GeographicErr" : got == 0 ? "->ok" : got == 2 ? "->bad_alloc" : "->ILLEGAL"), h);
   if (c.only) std::fprintf(stderr, "%s params=%s expected=%d got=%d %s\n", k.name.c_str(), args.c_str(), want, got, what.c_str());
 }
 inline void ctor_matrix_case(vh::Ctx& c, uint64_t idx) {
@@ -202,7 +202,7 @@ inline void ctor_random_case(vh::Ctx& c, uint64_t) {
   // with several parameters off-nominal the expectation function still applies (it looks at
   // the whole parameter vector), but only "must throw" is judged
   int want = k.expect(p);
-  ctor_run(c, k, p, want == 1, "ctor-random/" + k.name);
+  ctor_run(c, k, p, want % 10 == 1, "ctor-random/" + k.name);
 }
 
 }  // namespace c13
